@@ -268,6 +268,7 @@ class Unit:
     # ---- types
     def resolve(self, t, impl=None):
         k = t[0]
+        if k == "resolved": return t[1]      # (round 9) parameter of a synthetic function (closure of a `with` external)
         if k == "named":
             n = t[1]
             if n == "Self":
@@ -291,7 +292,22 @@ class Unit:
                 self.newtype_reps = getattr(self, "newtype_reps", []) + [t1]
                 return t1
             if n in ("Mutex", "Arc", "RefCell", "MutexGuard", "Rc") and len(t[2]) == 1:
-                return self.resolve(t[2][0], impl)     # trusted: locking is the identity on the protected value
+                r_ = self.resolve(t[2][0], impl)     # trusted: locking is the identity on the protected value
+                if n == "Mutex" and r_[0] == "opaque":
+                    # (round 9) remembered so that `.lock()` on a place declared `Mutex<Opaque>` is the identity as well
+                    self.mutex_opaques = getattr(self, "mutex_opaques", set()) | {r_[1]}
+                return r_
+            if n in getattr(self, "vec_types", ()) and len(t[2]) == 1:
+                # (round 9) target key `vec_types`: wrappers that deref to a slice of their argument (`vls_protocol::Array<T>`)
+                return ("vec", self.resolve(t[2][0], impl))
+            if n == "Weak" and len(t[2]) == 1:
+                # (round 9) `Weak<T>`: the value if it is still alive -- `Option T`; `.upgrade()` is the identity on it, so
+                # `.upgrade().unwrap()` panics exactly when the target is gone
+                return ("opt", self.resolve(t[2][0], impl))
+            if n == "Into" and len(t[2]) == 1:
+                # (round 9) `impl Into<T>` parameter: the only thing the body can do with it is `.into()`; the conversion
+                # happens at the caller's type, the parameter is modelled as the `T` it is converted to
+                return self.resolve(t[2][0], impl)
             if n in ATOMICS and not t[2]:
                 # (b1819) `AtomicUsize` … = the integer it holds; `fetch_add/fetch_sub/store/swap/load` are place
                 # operations on it (sequential semantics: the translated functions are single-threaded executions)
@@ -464,6 +480,7 @@ class Unit:
         if key in self.in_progress: raise RsError("recursive function %s" % name)
         self.in_progress.add(key)
         snap = ({k: list(v) for k, v in self.used_fields.items()}, list(self.used_enums), list(self.used_denums))
+        n_order = len(self.order)
         try:
             src = self.fn_src.get(key)
             if src is not None:
@@ -480,6 +497,10 @@ class Unit:
             self.failed[key] = "%s%s: %s" % ((impl + "::") if impl else "", name, e)
             if len(self.in_progress) == 1:
                 self.used_fields, self.used_enums, self.used_denums = snap
+                # (round 9) callees translated on the way are dropped with the field usage they recorded (they are
+                # translated again when another function asks for them): their structures would otherwise lack fields
+                for k_ in self.order[n_order:]: self.fns.pop(k_, None)
+                del self.order[n_order:]
             raise RsError(self.failed[key])
         finally:
             self.in_progress.discard(key)
@@ -641,7 +662,8 @@ class FnTranslator:
             elif self.impl not in u.fi.structs:
                 # default method of a trait: `self` is a value of an opaque type; the required methods of the
                 # trait it calls become explicit function parameters (externals)
-                if f["self"] != "ref": raise RsError("&mut self in a trait default method")
+                # (round 9) `&mut self`: the default method returns the new `self`; required `&mut self` methods of the
+                # trait are externals `SelfT → args → SelfT × R` (see decl_external)
                 self.trait_self = True
                 env["self"] = ("opaque", "SelfT")
                 params.append(("self", ("opaque", "SelfT")))
@@ -657,9 +679,16 @@ class FnTranslator:
             params.append((pat[1], t))
             if t[0] == "struct": u.used_fields.setdefault(t[1], [])   # emitted even if no field is read
             if refmut: self.mut_params.append(pat[1])
+            if ty[0] == "named" and ty[1] == "Into" and len(ty[2]) == 1:
+                self.into_params = getattr(self, "into_params", set()) | {pat[1]}     # `impl Into<T>`: see Unit.resolve
         self.params_pre = params
         for mp in self.mut_params:
-            if env[mp][0] == "opaque": raise RsError("&mut parameter of an opaque type is outside the subset")
+            # (round 9) a `&mut` parameter of an opaque type is returned like every other `&mut` parameter; the only things
+            # that can be done with it are: move/assign it, hand it on as `&mut`, and call methods declared under
+            # `externals` -- a method that changes it must be declared `"updates": true` (see `call_updating`).  Without
+            # any declared method on the type the old refusal stays (nothing could be said about what happens to it).
+            if env[mp][0] == "opaque" and not any(k.startswith(env[mp][1] + ".") for k in u.externals):
+                raise RsError("&mut parameter of an opaque type is outside the subset (no method of %s is declared external)" % env[mp][1])
         self.ret = u.resolve(f["ret"], self.impl)
         self.is_result = self.ret[0] == "result"
         self.val_ty = self.ret[1] if self.is_result else self.ret
@@ -671,6 +700,10 @@ class FnTranslator:
         info = FnInfo()
         info.impl, info.name = self.impl, f["name"]
         info.lean_name = (self.impl + "." if self.impl else "") + lid(f["name"])
+        if self.impl in u.fi.structs and f["name"] in [fn_ for fn_, _ in u.fi.structs[self.impl]]:
+            # (round 9) a method named like a field of its structure (`VelocityApprover::control`): Lean's projection has
+            # that name already
+            info.lean_name = self.impl + "." + f["name"] + "_fn"
         info.params, info.ret, info.val_ty = params, self.ret, self.val_ty
         info.is_result = self.is_result
         info.mut_self = self.selfk == "mut"
@@ -686,6 +719,7 @@ class FnTranslator:
         info.dropped = self.dropped
         info.needs_deq = self.needs_deq
         info.line, info.text, info.vis = f["line"], f["text"], f["vis"]
+        info.line = getattr(u, "line_map", {}).get((self.impl, f["name"]), info.line)
         info.end_line = f["end_line"]
         info.rel = u.rel
         info.unit = u
@@ -797,9 +831,11 @@ class FnTranslator:
 
     def out_parts(self):
         parts = []
-        if self.selfk == "mut":     # (a tuple struct listed under tuple_structs is its tuple / component: b1617, round 9)
-            parts.append(("self", dict(self.params)["self"] if self.impl in self.u.fi.tuple_structs and self.params
-                          and self.params[0][0] == "self" else ("struct", self.impl)))
+        if self.selfk == "mut":     # (a tuple struct listed under tuple_structs is its tuple / component: b1617, round 9;
+            # a trait default method with `&mut self` returns the opaque `SelfT`: bfn, round 9)
+            parts.append(("self", ("opaque", "SelfT") if getattr(self, "trait_self", False) else
+                          (dict(self.params)["self"] if self.impl in self.u.fi.tuple_structs and self.params
+                           and self.params[0][0] == "self" else ("struct", self.impl))))
         for mp in self.mut_params:
             parts.append((mp, dict(self.params)[mp]))
         return parts
@@ -834,7 +870,13 @@ class FnTranslator:
         if self.is_result:
             return self.result_comp(e, env)
         pre = []
-        term, ty = self.expr(e, env, pre, self.val_ty)
+        term, ty = self.expr(e, env, pre, self.val_ty if self.val_ty[0] != "opaque" else None)
+        if self.val_ty[0] == "opaque" and ty[0] == "struct" and self.ret == self.val_ty:
+            # (b0507) a struct value returned where the signature names a type the unit does not know
+            # (`Arc<dyn Validator>`, `Box<dyn Policy>`): rustc accepted it, so it is the unsizing coercion of that struct
+            # to a trait object; the generated definition returns the concrete struct
+            self.dropped.append("unsizing coercion of the returned %s to the declared %s" % (ty[1], self.val_ty[1]))
+            self.ret = self.val_ty = ty
         self.check_ty(ty, self.val_ty, "return value")
         return self.wrap(pre, P(self.pack(env, term)))
 
@@ -842,9 +884,12 @@ class FnTranslator:
         """IR computing a Result-typed expression in tail position of a Result-returning function"""
         if e[0] == "call" and e[1][0] == "path" and e[1][1] == ["Ok"]:
             pre = []
-            term, ty = self.expr(e[2][0], env, pre, self.val_ty)
+            term, ty = self.expr(e[2][0], env, pre, self.val_ty if self.val_ty != ("unknown",) else None)
+            self.ret_seen = getattr(self, "ret_seen", []) + [ty]
             self.check_ty(ty, self.val_ty, "Ok value")
             return self.wrap(pre, P(self.pack(env, term)))
+        if e[0] == "try" and e[1][0] == "call" and e[1][1] == ("path", ["Err"]):
+            return self.result_comp(e[1], env)      # (round 9) `return Err(e)?;` = `return Err(e.into());`
         if e[0] == "call" and e[1][0] == "path" and e[1][1] == ["Err"]:
             pre = []
             tag = self.err_tag(e[2][0], env, pre)
@@ -855,11 +900,14 @@ class FnTranslator:
                 pre = []
                 a = self.args_for(info, e[4], env, pre)
                 for x in info.exts: self.add_ext(*x, ops=getattr(info, 'ext_opaques', ()))
+                for o in info.needs_deq:          # (b04, round 9) the callee's [DecidableEq T] needs are the caller's too
+                    if o not in self.needs_deq: self.needs_deq.append(o)
                 self.callees.append(info.lean_name)
                 return self.wrap(pre, MCall(" ".join([info.lean_name] + [n for n, _ in info.exts] + ["self"] + a)))
         if e[0] in ("call", "mcall"):
             pre = []
             r = self.call_any(e, env, pre, want_result=True)
+            if r is not None and r[2] in ("comp", "tried"): self.ret_seen = getattr(self, "ret_seen", []) + [r[1]]
             if r is not None and r[2] == "comp":
                 if self.selfk == "mut" or self.mut_params:
                     v = self.fresh("r")
@@ -1032,6 +1080,7 @@ class FnTranslator:
             info = self.u.fns.get((impl, e[2]))
             if info is not None and info.mut_self: return True     # also `&self` methods that mutate through a lock
             return mut_recv(self.u.fi.fns.get((impl, e[2])), (impl, e[2]))
+        if any(k.endswith("." + e[2]) and v.get("updates") for k, v in self.u.externals.items()): return True
         if e[1] == ("path", ["self"]): return False
         # any other receiver (field, alias, local of a struct type of this file): by name, conservatively
         return any(mut_recv(k, (im, nm)) for (im, nm), k in self.u.fi.fns.items() if nm == e[2])
@@ -1050,6 +1099,7 @@ class FnTranslator:
         if k == "path" and len(e[1]) == 1: return e[1][0]
         if k in ("field", "tfield", "index", "deref", "paren", "ref", "someof"): return self.place_root(e[1])
         if k == "mcall" and e[2] in ("as_mut", "borrow_mut", "as_mut_slice") and not e[4]: return self.place_root(e[1])
+        if k == "mcall" and self.lock_alias(e) is not None: return self.place_root(self.lock_alias(e))   # `*X.lock().unwrap() = v`
         raise RsError("assignment target outside the subset")
 
     def stmts(self, items, tail, env, fin):
@@ -1254,12 +1304,20 @@ class FnTranslator:
         spec = self.u.externals["let:" + name]
         x = e
         while x[0] in ("paren", "ref", "deref"): x = x[1]
-        if not (x[0] == "call" and x[1][0] == "path" and x[1][1][-1] == spec["callee"]):
+        if spec["callee"] == "*":
+            x = ("any", None, x)       # (round 9) any initialiser: an uninterpreted function of exactly the declared variables
+        elif not (x[0] == "call" and x[1][0] == "path" and x[1][1][-1] == spec["callee"]):
             raise RsError("initialiser of `%s` (line %d) is not a call of %s" % (name, line, spec["callee"]))
         fv = []
         def walk(a):
             if isinstance(a, tuple):
-                if a and a[0] == "macro": raise RsError("macro inside the opaque initialiser of `%s`" % name)
+                if a and a[0] == "macro":
+                    # (round 9) a `"partial"` initialiser may contain `assert!`/`format!`…: every identifier token of the
+                    # macro's arguments that names a variable in scope counts as read (an over-approximation)
+                    if not spec.get("partial"): raise RsError("macro inside the opaque initialiser of `%s`" % name)
+                    for tk in a[2]:
+                        if tk.k == "id" and tk.s in env and tk.s not in fv: fv.append(tk.s)
+                    return
                 if len(a) == 2 and a[0] == "path" and isinstance(a[1], list) and len(a[1]) == 1 and a[1][0] in env \
                         and a[1][0] not in fv:
                     fv.append(a[1][0])
@@ -1276,7 +1334,7 @@ class FnTranslator:
             terms.append(term if " " not in term or term.startswith("(") else "(" + term + ")")
             tys.append(t)
         u = self.u
-        lty = LazyTy(u, tys, rt, None)
+        lty = LazyTy(u, tys, rt, "Rs.M" if spec.get("partial") else None)     # (round 9) "partial": it may panic (`expect`, `assert!`)
         for t in tys + [rt]:
             self.u.opaques_of(t, self.ext_opaques)
         ident = "ext_let_" + name
@@ -1285,7 +1343,8 @@ class FnTranslator:
                             % (name, line, spec["callee"], ident, ", ".join(spec["args"])))
         env2 = dict(env)
         env2[name] = rt
-        pre.append(("let", lid(name), "(%s %s)" % (ident, " ".join(terms))))
+        if spec.get("partial"): pre.append(("bind", lid(name), MCall("%s %s" % (ident, " ".join(terms)))))
+        else: pre.append(("let", lid(name), "(%s %s)" % (ident, " ".join(terms))))
         return self.wrap(pre, self.stmts(rest, tail, env2, fin))
 
     def bind_pat(self, pat, t, env):
@@ -1713,9 +1772,9 @@ class FnTranslator:
             return self.place_set(e[1], "(some %s)" % new, env, pre)
         if k == "mcall" and e[2] in ("as_mut", "borrow_mut", "as_mut_slice") and not e[4]:
             return self.place_set(e[1], new, env, pre)
-        if k == "mcall" and e[2] in ("unwrap", "expect") and e[1][0] == "mcall" and e[1][2] == "lock" and not e[1][4]:
-            # (b1012, round 9) `*X.lock().unwrap() = v;`: the lock is the identity on the protected value (as for reads)
-            return self.place_set(e[1][1], new, env, pre)
+        if k == "mcall" and self.lock_alias(e) is not None:
+            # (round 9) `*X.lock().unwrap() = v`: the lock is the identity, the write goes to the place X
+            return self.place_set(self.lock_alias(e), new, env, pre)
         if k == "tfield":
             base, bt = self.expr(e[1], env, pre, None)
             if bt[0] != "tuple" and e[2] == 0 and bt in getattr(self.u, "newtype_reps", []):
@@ -1768,7 +1827,18 @@ class FnTranslator:
                     term, t, _ = self.call_external(nm, [e[1]] + list(e[4]), env, pre)
                     self.check_ty(t, bt0, nm)
                     return self.place_set(e[1], term, env, pre)
+        user_method = False
         if e[0] == "mcall" and e[2] in MUT_METHODS:
+            # (round 9) a method of a structure of the unit that happens to be named like a collection method
+            # (`VelocityControl::clear`): the user's method, not the collection's
+            n0 = self.n
+            try:
+                _, pt0 = self.expr(e[1], env, [], None)
+                user_method = pt0[0] in ("struct", "enum") and (pt0[1], e[2]) in self.u.fi.fns
+            except RsError:
+                pass
+            self.n = n0
+        if e[0] == "mcall" and e[2] in MUT_METHODS and not user_method:
             recv = e[1]
             base, bt = self.place_get(recv, env, pre)
             if bt[0] == "vec":
@@ -1799,6 +1869,8 @@ class FnTranslator:
             if bt[0] == "map" and bt[1] == ("str",) and e[2] == "remove":
                 k, kt = self.expr(e[4][0], env, pre, ("str",)); self.check_ty(kt, ("str",), "map key")
                 return self.place_set(recv, "(Rs.smapRemove %s %s)" % (base, k), env, pre)
+            if bt[0] == "map" and bt[1] == ("str",) and e[2] == "clear" and not e[4]:
+                return self.place_set(recv, "[]", env, pre)      # (b1617, round 9) BTreeMap<String, V>::clear
             if e[2] == "copy_from_slice" and len(e[4]) == 1:
                 dst = recv
                 while dst[0] in ("paren", "ref"): dst = dst[1]
@@ -1870,6 +1942,24 @@ class FnTranslator:
             raise RsError("? inside a for loop of a function that does not return Result is outside the subset")
         jumps = self.has_jump(body)
         pre = []
+        it0 = it
+        while it0[0] == "paren": it0 = it0[1]
+        if it0[0] == "mcall" and it0[2] == "iter_mut" and not it0[4]:
+            # (round 9) `for x in v.iter_mut() { *x = e; }` with `e` free of partial operations: `v := v.map (fun x => e)`
+            sts = list(body[1]) + ([("expr", body[2], 0)] if body[2] is not None else [])
+            a = sts[0][1] if len(sts) == 1 and sts[0][0] == "expr" else None
+            if pat[0] == "pvar" and a is not None and a[0] == "assign" and a[1] == "=" and a[2] == ("deref", ("path", [pat[1]])) \
+                    and not self.has_partial(a[3]) and not jumps and not self.has_try(body):
+                base, bt = self.place_get(it0[1], env, pre)
+                if bt[0] != "vec": raise RsError("iter_mut on a non-vector")
+                env2 = dict(env); env2[pat[1]] = bt[1]
+                pre2 = []
+                term, t = self.expr(a[3], env2, pre2, bt[1])
+                if pre2: raise RsError("for over iter_mut(): the assigned expression has effects")
+                self.check_ty(t, bt[1], "element assigned through iter_mut")
+                env = self.place_set(it0[1], "(%s.map (fun %s => %s))" % (base, lid(pat[1]), term), env, pre)
+                return self.wrap(pre, cont(env))
+            raise RsError("for over iter_mut() other than `*x = <expression without partial operations>;` is outside the subset")
         self.allow_unordered = self.keyed_update_loop(pat, body)
         try:
             lst, elt = self.iter_expr(it, env, pre)
@@ -2115,6 +2205,10 @@ class FnTranslator:
             base, bt = self.expr(e[1], env, pre, None)
             if bt[0] != "tuple" and e[2] == 0 and bt in getattr(self.u, "newtype_reps", []):
                 return base, bt       # `.0` of a newtype listed under tuple_structs
+            if bt[0] in ("opaque", "struct") and "%s.%d" % (bt[1], e[2]) in self.u.externals:
+                # (round 9) declared projection of a foreign / opaque tuple struct: `"PubKey.0": {"params": [], "ret": "Vec<u8>"}`
+                r_ = self.call_external("%s.%d" % (bt[1], e[2]), [], env, pre, recv=(base, bt))
+                return r_[0], r_[1]
             if bt[0] != "tuple": raise RsError("tuple field on a non-tuple")
             n, i = len(bt[1]), e[2]
             if i >= n: raise RsError("tuple index out of range")
@@ -2263,6 +2357,10 @@ class FnTranslator:
             if v == "None":
                 if want is not None and want[0] == "opt": return "none", want
                 return "none", ("opt", ("unknown",))
+            if v in self.u.externals and not self.u.externals[v].get("params"):
+                # (b0507) a constant of another file whose value is outside the subset: declared external without parameters
+                term, t, _k = self.call_external(v, [], env, pre)
+                return term, t
             c = self.u.const_value(v, self.local_consts)
             if c is not None:
                 if c[0] == "expr":
@@ -2296,6 +2394,20 @@ class FnTranslator:
                 self.check_ty(t, c[2], "constant " + segs[1])
                 return "(%s : %s)" % (term, self.u.lt(t)), t
             if c is not None: return self.lit(c[0], c[1]), c[1]
+        if len(segs) == 2 and segs[0] in self.u.fi.structs:
+            # (round 9) integer associated constant of another structure of the unit (`Htlc::LOCAL`): looked up in the
+            # file that declares the structure
+            srcrel = self.u.struct_src.get(segs[0])
+            for idx in self.u.const_idx:
+                if idx.rel == srcrel and segs[1] in idx.consts:
+                    ty, ce = idx.consts[segs[1]]
+                    rt = self.u.resolve(ty)
+                    if is_int(rt): return self.lit(self.u.const_eval(ce, {}), rt), rt
+        if "::".join(segs) in self.u.externals and not self.u.externals["::".join(segs)].get("params"):
+            # (b0507) an associated constant of a type of another file / crate (`VelocityControlSpec::UNLIMITED`): declared
+            # external without parameters
+            term, t, _k = self.call_external("::".join(segs), [], env, pre)
+            return term, t
         raise RsError("path %s is outside the subset" % "::".join(segs))
 
     def unary(self, e, env, pre, want):
@@ -2635,12 +2747,14 @@ class FnTranslator:
         kind = "tried" if info.is_result else "val"
         return (val if val is not None else "()"), info.val_ty, kind
 
-    def decl_external(self, impl, m, args, env, pre):
+    def decl_external(self, impl, m, args, env, pre, wr=False):
         """a required (body-less) method of the trait whose default method is being translated: explicit parameter"""
         d = self.u.fi.function(impl, m)
         pts = [self.u.resolve(ty, impl) for _, ty, _, refmut in d["params"]]
-        if any(refmut for _, _, _, refmut in d["params"]) or d["self"] != "ref":
-            raise RsError("required trait method %s with &mut receiver/parameters" % m)
+        if any(refmut for _, _, _, refmut in d["params"]) or d["self"] not in ("ref", "mut"):
+            raise RsError("required trait method %s with &mut parameters / by-value receiver" % m)
+        upd = d["self"] == "mut"
+        if upd and self.selfk != "mut": raise RsError("required &mut self method %s called from a &self default method" % m)
         rt = self.u.resolve(d["ret"], impl)
         if len(pts) != len(args): raise RsError("arity of trait method %s" % m)
         terms = []
@@ -2649,6 +2763,18 @@ class FnTranslator:
             self.check_ty(t, pt, "argument of trait method %s" % m)
             terms.append(term if " " not in term or term.startswith("(") else "(" + term + ")")
         res = rt[1] if rt[0] == "result" else rt
+        if upd:
+            # required `&mut self` method: `SelfT → args → SelfT × R` (`SelfT` for `R = ()`), the new `self` is rebound
+            outl = "SelfT" if res == UNIT else "(SelfT × %s)" % self.u.lt(res, False)
+            lty = " → ".join(["SelfT"] + [self.u.lt(t, False) for t in pts] + [("Rs.M " + outl) if rt[0] == "result" else outl])
+            self.add_ext("ext_" + m, lty)
+            call = ("ext_%s self %s" % (m, " ".join(terms))).rstrip()
+            if rt[0] == "result" and not (wr and self.is_result):
+                raise RsError("Result of the state-updating required method %s used other than by `?` or in tail position" % m)
+            r_ = None if res == UNIT else self.fresh("r")
+            patt = "self" if r_ is None else "(self, %s)" % r_
+            pre.append(("bind", patt, MCall(call)) if rt[0] == "result" else ("let", patt, call))
+            return (r_ or "()"), res, ("tried" if rt[0] == "result" else "val")
         lty = " → ".join(["SelfT"] + [self.u.lt(t, False) for t in pts] +
                          [("Rs.M " + self.u.lt(res, False)) if rt[0] == "result" else self.u.lt(res, False)])
         self.add_ext("ext_" + m, lty)
@@ -2678,6 +2804,10 @@ class FnTranslator:
             if t == INTLIT: raise RsError("Some(literal) without a type")
             return "(some %s)" % term, ("opt", t), "val"
         if segs in (["Ok"], ["Err"]): raise RsError("Ok/Err outside tail position")
+        if segs in (["Arc", "new"], ["Box", "new"], ["Rc", "new"]) and len(args) == 1:
+            # (b0507) `Arc<T>` / `Box<T>` / `Rc<T>` are T (see resolve): their constructors are the identity
+            term, t = self.expr(args[0], env, pre, want if want is not None and want[0] != "opaque" else None)
+            return term, t, "val"
         if segs in (["min"], ["max"], ["cmp", "min"], ["cmp", "max"], ["core", "cmp", "min"], ["core", "cmp", "max"]):
             a, at, b, bt = self.operands(args[0], args[1], env, pre, want)
             if at != bt or not is_int(at): raise RsError("min/max on %r, %r" % (at, bt))
@@ -2701,6 +2831,10 @@ class FnTranslator:
                 term, t = self.expr(x, env, pre, ("int", "usize"))
             if want is not None and want[0] in ("vec", "map", "umap", "set", "uset"): return "[]", want, "val"
             raise RsError("%s::%s() without a known collection type (annotate the let)" % (segs[0], name))
+        if segs in (["Box", "new"], ["Arc", "new"], ["Rc", "new"]) and len(args) == 1:
+            # (round 9) `Box<T>` / `Arc<T>` are `T` (see rsparse / resolve): their constructor is the identity
+            term, t = self.expr(args[0], env, pre, want)
+            return term, t, "val"
         if segs == ["drop"] and len(args) == 1:
             self.expr(args[0], env, [], None)
             return "()", UNIT, "val"
@@ -2822,9 +2956,166 @@ class FnTranslator:
         if not terms: return ident, rt, "val"
         return "(%s %s)" % (ident, " ".join(terms)), rt, "val"
 
+    def closure_external(self, name, recv, args, env, pre, wr):
+        """(round 9) `recv.m(a…, |x| BODY)` for a method declared `"Type.m": {"closure": "X", "params": [..]}` (the shape of
+        `Node::with_channel(&id, |chan| …)`: run the closure on a `&mut X` the receiver looks up, return the closure's
+        `Result`).  BODY becomes a definition of its own, `<function>.<m>_<n>`, with the variables it reads as parameters
+        and `x : X` as its last, `&mut`, parameter (so it returns `Rs.M (X × T)`); the method is the higher-order external
+        `ext_Type_m : {T : Type} → Type → args → (X → Rs.M (X × T)) → Rs.M T`.  A tying theorem instantiates it or speaks
+        about the closure's definition directly.  The value must be consumed by `?` or be in tail position."""
+        spec = self.u.externals[name]
+        if not (wr and self.is_result): raise RsError("Result of %s(.., closure) used other than by `?` or in tail position" % name)
+        c = args[-1]
+        if c[0] != "closure" or len(c[1]) != 1 or c[1][0][0] != "pvar": raise RsError("%s: expected a one-parameter closure" % name)
+        pts = [self.u.parse_type(x, self.impl) for x in spec["params"]]
+        if len(pts) != len(args) - 1: raise RsError("external %s arity" % name)
+        rterm, rty = self.expr(recv, env, pre, None)
+        terms = [self.paren(rterm)]
+        for a, pt in zip(args[:-1], pts):
+            term, t = self.expr(a, env, pre, pt)
+            self.check_ty(t, pt, "argument of external %s" % name)
+            terms.append(self.paren(term))
+        xname = c[1][0][1]
+        xty = self.u.parse_type(spec["closure"], self.impl)
+        body = c[2] if c[2][0] == "block" else ("block", [], c[2])
+        # captured variables: every variable of the environment the body mentions (in order of appearance)
+        caps = []
+        def walk(a):
+            if isinstance(a, tuple):
+                if len(a) == 2 and a[0] == "path" and isinstance(a[1], list) and len(a[1]) == 1 and a[1][0] in env \
+                        and a[1][0] not in caps and a[1][0] not in ("self", xname):
+                    caps.append(a[1][0])
+                for y in a: walk(y)
+            elif isinstance(a, list):
+                for y in a: walk(y)
+        walk(body)
+        if any(env[v][0] in ("alias", "lockres") for v in caps): raise RsError("closure of %s captures an alias" % name)
+        uses_self = "self" in env and ("path", ["self"]) in [x for x in self._paths(body)]
+        self.closure_n = getattr(self, "closure_n", 0) + 1
+        fname = "%s__%s_%d" % (self.f["name"], name.split(".")[-1], self.closure_n)
+        def synth(ret):
+            return {"name": fname, "impl": self.impl, "self": "ref" if uses_self else None, "ret": ret, "body": body,
+                    "params": [(("pvar", v), ("resolved", env[v]), False, False) for v in caps] + [(("pvar", xname), ("resolved", xty), False, True)],
+                    "vis": "", "line": getattr(self.u, "line_map", {}).get((self.impl, self.f["name"]), self.f["line"]), "end_line": self.f["end_line"],
+                    "text": "closure |%s| of %s(..) in %s" % (xname, name, self.f["text"][:60])}
+        key = (self.impl, fname)
+        if key not in self.u.fns:
+            # first pass: the closure has no declared return type -- the types seen in its tail positions decide
+            saved = (dict((k_, list(v)) for k_, v in self.u.used_fields.items()), list(self.u.used_enums), list(self.u.used_denums))
+            t1 = FnTranslator(self.u, synth(("resolved", ("result", ("unknown",), ("opaque", "Status")))))
+            t1.run()
+            def known(t):
+                return t != ("unknown",) and t != INTLIT and all(known(x) for x in t[1:] if isinstance(x, tuple)) \
+                    and all(known(y) for x in t[1:] if isinstance(x, list) for y in x)
+            good = [t for t in getattr(t1, "ret_seen", []) if known(t)]
+            if not good: raise RsError("closure of %s: its result type cannot be determined" % name)
+            self.u.used_fields, self.u.used_enums, self.u.used_denums = saved
+            info = FnTranslator(self.u, synth(("resolved", ("result", good[0], ("opaque", "Status"))))).run()
+            self.u.fns[key] = info
+            self.u.order.append(key)
+        info = self.u.fns[key]
+        for x in info.exts: self.add_ext(*x, ops=getattr(info, "ext_opaques", ()))
+        for o in info.needs_deq:
+            if o not in self.needs_deq: self.needs_deq.append(o)
+        self.callees.append(info.lean_name)
+        T = info.val_ty
+        ident = "ext_" + re.sub(r"\W+", "_", name)
+        ops = []
+        for t in [rty] + pts + [xty]: self.u.opaques_of(t, ops)
+        lt = self.u.lt
+        lty = "{T : Type} → " + " → ".join([lt(t, False) for t in [rty] + pts] +
+                                             ["(%s → Rs.M (%s × T))" % (lt(xty, False), lt(xty, False)), "Rs.M T"])
+        self.add_ext(ident, lty, ops)
+        fterm = " ".join([info.lean_name] + [n for n, _ in info.exts] + (["self"] if uses_self else []) + [lid(v) for v in caps])
+        if T == UNIT:
+            # the closure definition returns the new X alone: adapt to the external's `X × T`
+            fterm = "fun x_ => do let s_ ← %s x_; pure (s_, ())" % fterm
+        return "%s %s (%s)" % (ident, " ".join(terms), fterm), T, "comp"
+
+    def _paths(self, a):
+        if isinstance(a, tuple):
+            if len(a) == 2 and a[0] == "path": yield a
+            for y in a:
+                for z in self._paths(y): yield z
+        elif isinstance(a, list):
+            for y in a:
+                for z in self._paths(y): yield z
+
+    def declared_mutex(self, recv, env):
+        """is the place `recv` (a field of a structure of the unit, or a parameter) *declared* with a `Mutex<..>` type
+        (under `Arc`/`Rc`/`Box`/references)?  Only then `.lock()` on a value of opaque type is known to be the mutex's."""
+        def is_mutex(ty):
+            while ty[0] == "named" and ty[1] in ("Arc", "Rc") and len(ty[2]) == 1: ty = ty[2][0]
+            return ty[0] == "named" and ty[1] == "Mutex"
+        while recv[0] in ("paren", "ref", "deref"): recv = recv[1]
+        if recv[0] == "field":
+            try:
+                _, bt = self.expr(recv[1], env, [], None)
+            except RsError:
+                return False
+            if bt[0] != "struct": return False
+            return any(fn == recv[2] and ty is not None and is_mutex(ty) for fn, ty in self.u.fi.structs[bt[1]])
+        if recv[0] == "path" and len(recv[1]) == 1:
+            return any(pat[0] == "pvar" and pat[1] == recv[1][0] and is_mutex(ty) for pat, ty, _, _ in self.f["params"])
+        return False
+
+    def call_updating(self, name, recv, args, env, pre, wr):
+        """(round 9) call of a method declared `"Type.m": {"params": [..], "ret": R, "updates": true}` on a *place* of the
+        opaque (or imported struct) type `Type`: the external is a function `Type → args → Type × R` (`Type` alone for
+        `R = ()`; `Rs.M (…)` for a declared `Result<R, _>` -- then, as for translated `&mut self` methods, only under `?`
+        or in tail position -- and for `"partial": true`); the new value is stored back into the receiver place, which
+        must be assignable (a `&mut` parameter, a `let mut` local, a field of a state-updating `self`).  The state after
+        an `Err` is not modelled (the monad carries no state): exactly the treatment of translated `&mut self` methods."""
+        spec = self.u.externals[name]
+        pts = [self.u.parse_type(x, self.impl) for x in spec["params"]]
+        rt = self.u.parse_type(spec["ret"], self.impl)
+        rterm, rty = self.expr(recv, env, pre, None)
+        if len(pts) == len(args) + 1:
+            self.check_ty(rty, pts[0], "receiver of external %s" % name); pts = pts[1:]
+        if len(pts) != len(args): raise RsError("external %s arity" % name)
+        terms = [self.paren(rterm)]
+        for a, pt in zip(args, pts):
+            term, t = self.expr(a, env, pre, pt)
+            self.check_ty(t, pt, "argument of external %s" % name)
+            terms.append(self.paren(term))
+        is_res = rt[0] == "result"
+        val = rt[1] if is_res else rt
+        out = rty if val == UNIT else ("tuple", [rty, val])
+        mon = is_res or spec.get("partial") or spec.get("may_panic")
+        lty = LazyTy(self.u, [rty] + pts, out, "Rs.M" if mon else None)
+        ident = "ext_" + re.sub(r"\W+", "_", name)
+        ops = []
+        for t in [rty] + pts + [val]: self.u.opaques_of(t, ops)
+        self.add_ext(ident, lty, ops)
+        if is_res and not (wr and self.is_result):
+            raise RsError("Result of the state-updating external %s used other than by `?` or in tail position" % name)
+        s_, r_ = self.fresh("s"), None
+        patt = s_
+        if val != UNIT:
+            r_ = self.fresh("r"); patt = "(%s, %s)" % (s_, r_)
+        call = "%s %s" % (ident, " ".join(terms))
+        pre.append(("bind", patt, MCall(call)) if mon else ("let", patt, call))
+        self.place_set(recv, s_, env, pre)
+        return (r_ if r_ is not None else "()"), val, ("tried" if is_res else "val")
+
     def mcall(self, e, env, pre, want):
         _, recv, m, turbo, args, line = e
         wr = getattr(self, "wr_of", {}).get(id(e), False)
+        if m in ("unwrap", "expect") and recv[0] in ("call", "mcall") and self.is_result:
+            # (b1012, round 9) `f(..).unwrap()` / `.expect(msg)` on the `Result` of a translated (or monadic external) call that
+            # does not update state: an `Err` is a panic (`Rs.unwrapOk`), a panic or overflow inside stays what it is.
+            # (a probe first: any other receiver goes on below, untouched)
+            pre0, n0 = [], self.n
+            try:
+                r0 = self.call_any(recv, env, pre0, want_result=True)
+            except RsError:
+                r0 = None
+            if r0 is not None and r0[2] == "comp":
+                pre.extend(pre0)
+                v = self.fresh()
+                pre.append(("bind", v, MCall("Rs.unwrapOk (%s)" % r0[0])))
+                return v, r0[1], "val"
+            self.n = n0
         if recv == ("path", ["self"]) and ("self." + m) in self.u.externals:
             return self.call_external("self." + m, args, env, pre)
         if recv == ("path", ["self"]) and self.impl and "%s.%s" % (self.impl, m) in self.u.externals and "self" in env:
@@ -2843,6 +3134,8 @@ class FnTranslator:
                     v = self.fresh("r")
                     call = " ".join([info.lean_name] + [n for n, _ in info.exts] + ["self"] + a)
                     for x in info.exts: self.add_ext(*x, ops=getattr(info, 'ext_opaques', ()))
+                    for o in info.needs_deq:      # (b04, round 9) as in call_translated / invoke
+                        if o not in self.needs_deq: self.needs_deq.append(o)
                     self.callees.append(info.lean_name)
                     if not self.is_result: raise RsError("Result method called outside a Result function")
                     if not wr:
@@ -2863,10 +3156,29 @@ class FnTranslator:
             ft, fty = self.expr(recv, env, pre, None)
             return self.call_external("%s.%s" % (recv[2], m), args, env, pre, recv=(ft, fty), field_style=True)
         if recv == ("path", ["self"]) and self.trait_self and (self.impl, m) in self.u.fi.decl_only:
-            return self.decl_external(self.impl, m, args, env, pre)
+            return self.decl_external(self.impl, m, args, env, pre, wr)
         if recv[0] == "path" and len(recv[1]) == 1 and recv[1][0] not in env and recv[1][0] != "self" \
                 and self.u.const_value(recv[1][0], self.local_consts) is None:
             raise RsError("method call on unknown %s" % recv[1][0])
+        if args and args[-1][0] == "closure" and any(k.endswith("." + m) and v.get("closure") for k, v in self.u.externals.items()):
+            pre0, n0 = [], self.n
+            try:
+                _, ct0 = self.expr(recv, env, pre0, None)
+            except RsError:
+                ct0 = ("unknown",)
+            self.n = n0
+            if ct0[0] in ("struct", "opaque") and self.u.externals.get("%s.%s" % (ct0[1], m), {}).get("closure"):
+                return self.closure_external("%s.%s" % (ct0[1], m), recv, args, env, pre, wr)
+        if any(k.endswith("." + m) and v.get("updates") for k, v in self.u.externals.items()):
+            # (round 9) a declared *state-updating* external method `Type.m` (`"updates": true`): the receiver is a place
+            pre0, n0 = [], self.n
+            try:
+                _, ut0 = self.expr(recv, env, pre0, None)
+            except RsError:
+                ut0 = ("unknown",)
+            self.n = n0
+            if ut0[0] in ("struct", "opaque") and self.u.externals.get("%s.%s" % (ut0[1], m), {}).get("updates"):
+                return self.call_updating("%s.%s" % (ut0[1], m), recv, args, env, pre, wr)
         if recv[0] == "path" and len(recv[1]) == 1 and recv[1][0] in env and env[recv[1][0]][0] in ("struct", "opaque") \
                 and "%s.%s" % (env[recv[1][0]][1], m) in self.u.externals:
             # a method declared external in the target list: `ext_<Type>_<method> : Type → args → ret`
@@ -2933,6 +3245,9 @@ class FnTranslator:
         k = bt[0]
         if m == "lock" and not args and k not in ("opaque", "iter", "viter", "lockres"):
             return base, ("lockres", bt), "val"      # trusted: locking is the identity on the protected value
+        if m == "lock" and not args and k == "opaque" and bt[1] in getattr(self.u, "mutex_opaques", ()) \
+                and (bt[1] + ".lock") not in self.u.externals and self.declared_mutex(recv, env):
+            return base, ("lockres", bt), "val"      # (round 9) the place is declared `Mutex<Opaque>`: identity, as above
         if k == "lockres":
             if m in ("unwrap", "expect"): return base, bt[1], "val"
             raise RsError("lock result used other than by unwrap/expect")
@@ -2945,9 +3260,13 @@ class FnTranslator:
             return base, bt, "val"
         if m == "to_vec" and not args and k == "vec":
             return base, bt, "val"
+        if m == "into" and not args and recv[0] == "path" and len(recv[1]) == 1 and recv[1][0] in getattr(self, "into_params", ()):
+            return base, bt, "val"      # (round 9) parameter declared `impl Into<T>`, modelled as the `T` it converts to
         if m == "into" and not args:
             if want is not None and is_uint(want) and is_uint(bt) and UBITS[want[1]] >= UBITS[bt[1]]: return base, want, "val"
             if want is not None and want == bt: return base, bt, "val"
+            if k in ("opaque", "struct") and (bt[1] + ".into") in self.u.externals:      # (round 9) declared conversion
+                return self.call_external(bt[1] + ".into", [], env, pre, recv=(base, bt))
             if want is not None and want[0] == "struct" and bt[0] == "struct" and self.u.fi.fns.get((want[1], "from")) not in (None, "ambiguous"):
                 # b1012, round 9: `x.into()` where the wanted type is a struct of the unit with exactly one `impl From<_> for T`
                 # (conversions between in-memory and persisted types): the call `T::from(x)`; the argument type is checked
@@ -3187,6 +3506,7 @@ class FnTranslator:
 
     def opt_method(self, base, bt, m, args, env, pre, want):
         el = bt[1]
+        if m == "upgrade" and not args: return base, bt, "val"      # `Weak<T>` is modelled as `Option T` (see resolve)
         if m == "is_some": return "%s.isSome" % base, BOOL, "val"
         if m == "is_none": return "%s.isNone" % base, BOOL, "val"
         if m in ("unwrap", "expect"):
@@ -3196,6 +3516,12 @@ class FnTranslator:
             return "(%s.getD %s)" % (base, d), el, "val"
         if m == "unwrap_or_default" and is_uint(el):
             return "(%s.getD 0)" % base, el, "val"
+        if m == "unwrap_or_default" and el[0] == "struct" and (el[1], "default") in self.u.fi.fns and not args:
+            # (b0507) `impl Default for S` of the unit's files: the translated `S::default()`
+            info = self.u.get_fn(el[1], "default")
+            d, dt, kind = self.call_translated(info, [], env, pre)
+            if kind != "val" or dt != el: raise RsError("unwrap_or_default: %s::default() outside the subset" % el[1])
+            return "(%s.getD %s)" % (base, d), el, "val"
         if m in ("unwrap_or_else", "or_else"):
             pats, ir, t = self.closure1(args[0], [], env, el if m == "unwrap_or_else" else bt)
             rt = el if m == "unwrap_or_else" else bt
